@@ -36,6 +36,11 @@ CLAIMED = {
             "Seeded search over (authoring program x strength x passwords x permission bits x writer configuration x entropy mode incl. all-zero/all-0xFF x source plan x reader preset). Because entropy, clock and pid are owned, each run's salts, file key, file id and IVs are a function of the seed and replay exactly. The unencrypted fault-free view is the reference; the encrypted file must be recognised as encrypted, expose nothing while locked, refuse a wrong password, and give the identical view with either password; permission flags must survive.",
             "The reference is the library's own reading of the unencrypted document. No independent decryptor is installed (that is C06, not claimed).",
             "DESIGN.md §4 C05, §1.1"),
+    "C17": ("exploration",
+            "deterministic simulation: histories of incremental edits over library-written bases, checked after every appended revision against a reference model, a byte-prefix oracle and an independent chain reader",
+            "Seeded search over (base document x writer configuration x history of 1-6 form fills / text-note add-update-remove x source plan x preset). After every applied edit: exact byte prefix (append-only), the library (through a short-reading source) and the independent reader both resolve every field and note to its newest value, the /Prev chain is strictly decreasing with monotone /Size and structurally valid sections, and every object outside the appended section's change set is unchanged.",
+            "Reference model {field -> value}, [notes] kept by the harness. The in-memory incremental editors are covered; the path-based page replacement / overlay writers (real filesystem, no seam) are not.",
+            "DESIGN.md §4 C17"),
     "C19": ("fault_enumeration",
             "deterministic simulation: enumerated stored-image fault catalogue (D1-D12 + sampled pairs) on the xref section, intact run as reference",
             "For every sampled valid file the complete single-damage catalogue (60-110 instances) and sampled ordered pairs are applied to the stored image; each damaged image is opened with recovery enabled (through SimSource, also with short reads) and catalog, page count and every object are compared with the intact image. The library's own tracing event tells whether recovery was entered, which separates the one known root cause (damaged table accepted, recovery never entered) from unfaithful recovery.",
